@@ -241,7 +241,7 @@ def gen_interface(rng):
             c.kids.insert(rng.randrange(len(c.kids) + 1), F.Any())
             feats.add("wildcard")
     # same member name in unrelated types
-    if rng.random() < 0.4 and len(S.types) > 1:
+    if rng.random() < 0.4 and len(S.types) > 1 and elems:
         for _ in range(3):
             (ta, ca, ea), (tb, cb, eb) = rng.choice(elems), rng.choice(elems)
             if ta is not tb and not related(S, ta, tb):
